@@ -162,7 +162,7 @@ func (r *run) keysH(c context.Context, ctx *app.RequestContext) {
 	}
 	ready := make(chan struct{}) // closed when every reader has looked once at the still empty store
 	var first sync.WaitGroup
-	first.Add(r.c.Conns)
+	first.Add(1)
 	for w := 0; w < keysWriters; w++ {
 		wg.Add(1)
 		go func(w int) {
@@ -189,13 +189,18 @@ func (r *run) keysH(c context.Context, ctx *app.RequestContext) {
 		go func(g int) {
 			defer rg.Done()
 			defer guard("keys reader")
+			if g != 0 { // the other readers join once the first pair has been written
+				for atomic.LoadInt64(&completed[0]) == 0 {
+					runtime.Gosched()
+				}
+			}
 			for i := 0; ; i++ {
 				select {
 				case <-stop:
 					return
 				default:
 				}
-				if i == keysWriters*5 { // one look of every kind done: the writers may start
+				if i == 3 && g == 0 { // the goroutine that only uses Value has looked at the still empty store: the writers may start
 					first.Done()
 				}
 				w := (g + i) % keysWriters
